@@ -130,6 +130,7 @@ func runC04(c *core.Ctx) {
 	c04TypeCodes(c)
 	c04Decoders(c)
 	c04KeyConstructors(c)
+	c04Cost(c)
 }
 
 func checkC04(c *core.Ctx, pc pcase) {
